@@ -545,9 +545,16 @@ def rule_aff_factor(ctx: Ctx) -> None:
                     init_assign = [n_ for n_ in p.nodes(f) if isinstance(n_, ast.Assign) and norm(n_.targets[0]) == fac and any(
                         (norm(a), pol) == (f'{fac} is None', True) for g_ in __import__('kfv.flow', fromlist=['x']).enclosing_guards(p, f, n_)
                         for a, pol in __import__('kfv.rules.spmd_rules', fromlist=['x']).conjuncts(g_.test, g_.polarity))]
-                    okid = len(init_assign) == 1 and norm(init_assign[0].value).replace(' ', '') in (
-                        f'torch.diag({X}_new.new({X}_new.shape[0]).fill_(1))', f'torch.eye({X}_new.shape[0],dtype={X}_new.dtype,device={X}_new.device)',
-                        f'torch.diag({X}_new.new_ones({X}_new.shape[0]))')
+                    okid = False
+                    if len(init_assign) == 1:
+                        got_id = norm(init_assign[0].value).replace(' ', '')
+                        for V in sorted({n_.id for n_ in ast.walk(init_assign[0].value) if isinstance(n_, ast.Name)} - {'torch'}):
+                            if got_id in (f'torch.diag({V}.new({V}.shape[0]).fill_(1))', f'torch.eye({V}.shape[0],dtype={V}.dtype,device={V}.device)', f'torch.diag({V}.new_ones({V}.shape[0]))'):
+                                # V is the new batch moment (whatever the local is called)
+                                try:
+                                    okid = cb.value(symexec_state(fin), ast.Name(id=V, ctx=ast.Load())) == new
+                                except Exception:  # noqa: BLE001
+                                    okid = False
                     ctx.check(okid, 'AFF-ID', f, f'update_{X}_factor: first factor = identity of the batch size', f'update_{X}_factor identity',
                               f'update_{X}_factor initialises a missing factor with {norm(init_assign[0].value) if init_assign else "nothing"}; specified: the identity matrix of the size (and dtype) of the new batch moment', init_assign[0] if init_assign else f.node)
                     if init_assign:
